@@ -1,3 +1,5 @@
+//go:build verif && !no_c12
+
 package main
 
 import (
